@@ -444,6 +444,10 @@ M("r1c-caller-anode-reset-at-the-end", ["C14", "C17", "C13"], "break",
 M("r23-hash-size-before-alloc", ["C17", "C19", "C16"], "break",
   [("hashtab.c", "  new_htab =\n    create_hash_table (htab->alloc, htab->number_of_elements * 2,", "  htab->searches++;\n  new_htab =\n    create_hash_table (htab->alloc, htab->number_of_elements * 2,")],
   "expand_hash_table/searches")
+M("r16-revert-F32-conditional-total-loss-rule", ["C12", "C06"], "break",
+  [("yaep.c", "  rule = rule_new_start (grammar->axiom, NULL, 0);\n  rule_new_symb_add (grammar->term_error);\n  rule_new_symb_add (grammar->end_marker);\n  rule_new_stop ();\n  rule->trans_len = 0;\n  check_grammar (strict_p);",
+    "  for (rule = start->u.nonterm.rules; rule != NULL; rule = rule->lhs_next)\n    if (rule->rhs[0] == grammar->term_error)\n      break;\n  if (rule == NULL)\n    {\n  rule = rule_new_start (grammar->axiom, NULL, 0);\n  rule_new_symb_add (grammar->term_error);\n  rule_new_symb_add (grammar->end_marker);\n  rule_new_stop ();\n  rule->trans_len = 0;\n    }\n  check_grammar (strict_p);")],
+  "yaep_read_grammar/total-loss-rule")
 
 # ---- R8 / R2f (C16, C19) ----------------------------------------------------------------------------
 M("r8-revert-F14", ["C19", "C16"], "break", [("hashtab.cpp", "		  entry_ptr = first_deleted_entry_ptr;\n		  *entry_ptr = EMPTY_ENTRY;", "		  entry_ptr = first_deleted_entry_ptr;\n		  *entry_ptr = DELETED_ENTRY;")], "find_hash_table_entry~")
